@@ -234,12 +234,10 @@ int parity_create(struct snapraid_parity_handle* handle, const struct snapraid_p
 			split->size = split->st.st_size;
 
 			/* ensure that the resulting size if block aligned */
-			if ((split->size & block_mask) != 0) {
-				/* LCOV_EXCL_START */
-				log_fatal("Error in preallocated size of parity file '%s' with size %" PRIu64 " and block %u .\n", split->path, split->size, block_size);
-				goto bail;
-				/* LCOV_EXCL_STOP */
-			}
+			/* in case of damage the size may get wrong, */
+			/* then ignore the partial block at the end, like parity_handle_fill() */
+			/* otherwise "fix" cannot recover a parity file cut inside a block */
+			split->size &= ~block_mask;
 		}
 
 		ret = advise_open(&split->advise, split->f);
